@@ -271,6 +271,19 @@ pub fn enumerate(a: &Arena, s: &Schedule, m: &Menu) -> Vec<Op> {
                     ops.push(Op::Spawn { vt, nodes: p });
                 }
             }
+            // one argument outside the domain per state and type: an activity of another type (must be refused)
+            if let Some(&foreign) = a.acts.iter().find(|n| !a.compatible(**n, vt)) {
+                ops.push(Op::Spawn { vt, nodes: vec![foreign] });
+                if let Some(&v) = reals.iter().find(|v| s.vehicle_type_of(**v).ok() == Some(vt)) {
+                    ops.push(Op::AddPath { v, nodes: vec![foreign] });
+                }
+            }
+        }
+    }
+    // the doc comment of add_path_to_vehicle_tour admits dummy receivers: one plain single-activity path per dummy
+    for &d in &dums {
+        if let Some(&n) = a.acts.iter().find(|n| a.is_service(**n)) {
+            ops.push(Op::AddPath { v: d, nodes: vec![n] });
         }
     }
     ops
